@@ -548,11 +548,13 @@ class Connection:
         assert stmt.cursor is not None
         count = 0
 
-        async for packet in cooperative_iterate(stmt.cursor):
-            if count >= com_stmt_fetch.num_rows:
-                break
-            await self.stream.write(packet, drain=False)
-            count += 1
+        if com_stmt_fetch.num_rows > 0:
+            async for packet in cooperative_iterate(stmt.cursor):
+                await self.stream.write(packet, drain=False)
+                count += 1
+                # Stop before pulling a row that this fetch would not deliver
+                if count >= com_stmt_fetch.num_rows:
+                    break
         await self.stream.drain()
 
         done = count < com_stmt_fetch.num_rows
